@@ -868,6 +868,8 @@ class Message:
                 next_payload_type, critical, length = unpack_from('>BBH', data, offset)
             except struct_error as ex:
                 raise InvalidSyntax(ex)
+            if length < 4:
+                raise InvalidSyntax(f'Payload length {length} is smaller than the generic payload header')
             critical = bool(critical >> 7)
             start = offset + 4
             end = offset + length
